@@ -1,5 +1,8 @@
 (* C01 -- Register hazards respected: conflicting accesses occur in program order, and replaying the
    diagram's reads and writes gives the operands and final register file of sequential execution. *)
+(* Guard on programs: wf_progb = the sources of every instruction are duplicate-free, which is what
+   program_defs.HwInstruction's converter guarantees; without it the model itself breaks the property
+   (proofs/C01_counterexample.v). *)
 From PS Require Import Base Bag RegAccess Sim Diag C01_proof.
 
 (* i performs its access of kind k in cycle t: shown 'U' in a unit holding that lock *)
@@ -8,7 +11,7 @@ Definition performs (P : proc) (d : diagram) (t i : nat) (k : aty) : Prop :=
 
 Theorem C01_hazard_order :
   forall (P : proc) (prog : list instr) (fuel : nat) (tg : dtag) (d : diagram),
-    wf_procb P = true -> sim_result fuel P prog tg d ->
+    wf_procb P = true -> wf_progb prog = true -> sim_result fuel P prog tg d ->
     forall i j ki kj tj, i < j -> j < length prog -> In (ki, kj) (conflicts prog i j) ->
       performs P d tj j kj -> exists ti, ti < tj /\ performs P d ti i ki.
 Proof. exact C01_hazard_order_lemma. Qed.
@@ -17,6 +20,6 @@ Print Assumptions C01_hazard_order.
 (* the extracted checker (order + replay against sequential execution) accepts every model diagram *)
 Theorem C01_checker_accepts :
   forall (P : proc) (prog : list instr) (fuel : nat) (tg : dtag) (d : diagram),
-    wf_procb P = true -> sim_result fuel P prog tg d -> C01_checkb P prog tg d = true.
+    wf_procb P = true -> wf_progb prog = true -> sim_result fuel P prog tg d -> C01_checkb P prog tg d = true.
 Proof. exact C01_checker_accepts_lemma. Qed.
 Print Assumptions C01_checker_accepts.
